@@ -1,3 +1,82 @@
-(* props/C17.v — property theorems for C17 (placeholder while the pipeline is being built) *)
-From Coq Require Import List ZArith.
-From Verif Require Import lib.Regex model.FastRegex.
+(* props/C17.v — property theorems for C17: the optimised label regex matcher
+   (labels.FastRegexMatcher) reports a match exactly when the fully anchored expression, with
+   '.' matching newlines, matches; and an exposed finite set of values is exact.
+   Statements only; proofs are in lib/RegexProofs.v and proof/FastRegexProofs.v.
+
+   Meaning of a syntax tree: Matches F r s := CM F true true (lower r) s  (lib/Regex.v), the
+   anchored match ^(?s:r)$, with F the Unicode simple-folding relation. *)
+From Coq Require Import List ZArith Bool.
+From Verif Require Import lib.Regex lib.RegexProofs model.FastRegex proof.FastRegexProofs proof.FastRegexProofs2.
+Import ListNotations.
+Open Scope Z_scope.
+
+(* The executable reference matcher (Brzozowski derivatives) used by the checker and as the
+   model of m.re.MatchString decides the anchored meaning — for every tree, every string and
+   every folding relation. *)
+Theorem C17_reference_matcher_correct : forall F r s, re_match F r s = true <-> Matches F r s.
+Proof. exact re_match_correct. Qed.
+
+(* findSetMatches: whenever it returns a non-empty case-sensitive set (the only sets
+   SetMatches() exposes), a string matches the expression exactly when it is in the set
+   (shown for every base string the recursion carries; base = "" at the top). *)
+Theorem C17_set_matches_exact : forall F r ms,
+  fsm r [] = (ms, true) -> ms <> [] -> forall s, Matches F r s <-> In s ms.
+Proof. exact fsm_top_exact. Qed.
+
+(* stringMatcherFromRegexpInternal, case-sensitive fragment (no FoldCase flag in the tree):
+   whenever it returns a matcher, the matcher accepts exactly the strings the expression
+   matches — wherever the expression stands (b, e = at begin / at end of the text). *)
+Theorem C17_string_matcher_internal_cs_partial : forall F NL r m,
+  wf_csb r = true -> smi r = Some m ->
+  forall s, smm F NL m s = true <-> Matches F r s.
+Proof. intros F NL r m Hwf Hm s. exact (smi_correct F NL NL r Hwf m Hm true true s). Qed.
+
+(* stringMatcherFromRegexp = clearBeginEndText + the above + the map optimisation
+   optimizeEqualOrPrefixStringMatchers (>= 16 equality/prefix alternatives become one
+   equalMultiStringMapMatcher with byte-sliced prefix keys): same exactness, against the fully
+   anchored meaning. Case-sensitive fragment; the oracles NL, TL are irrelevant there. *)
+Theorem C17_matcher_sound_complete_cs_partial : forall F NL TL r m,
+  wf_csb r = true -> string_matcher_from_regexp NL TL r = Some m ->
+  forall s, smm F NL m s = true <-> Matches F r s.
+Proof. exact smfr_correct. Qed.
+
+(* FULL STATEMENT (not provable, refuted below): forall F (simple folding), NL, TL (Go's
+   toNormalisedLower / strings.ToLower), pat, ast = Parse(pat), s:
+     match_string F NL (new_frm NL TL pat ast) s = re_match F ast s.
+   It fails in the faithful model — and in the real code, see notes/C17.md — in three ways: *)
+
+(* (1) [FIXED in /repo by d2b0409570; new_frm_old is the model of the code before the fix]
+   trueMatcher + containsInOrder when clearCapture leaves two ADJACENT literal nodes in a
+   .*-delimited top-level concatenation: ".*a(b).*" matched "axb". Case-sensitive, ASCII. *)
+Theorem C17_simple_concat_old_refuted :
+  wf_csb adj_ast = true /\ optimize_alternating_literals (fun b => b) adj_pat = None /\
+  match_string (fun _ _ => false) (fun b => b) (new_frm_old (fun b => b) (fun b => b) adj_pat adj_ast)
+    [97; 120; 98] = true /\
+  re_match (fun _ _ => false) adj_ast [97; 120; 98] = false.
+Proof. exact adjacent_literals_old_refuted. Qed.
+
+(* (2) case-insensitive equalMultiStringMapMatcher compares values after NFKD + ToLower:
+   "(?i:fi|v0|...|v15)" matches the ligature U+FB01. *)
+Theorem C17_ci_map_values_refuted :
+  optimize_alternating_literals (tabf ci_nl) ci_pat = None /\
+  match_string (fold_of ci_orbits) (tabf ci_nl) (new_frm (tabf ci_nl) (tabf []) ci_pat ci_ast) [64257] = true /\
+  re_match (fold_of ci_orbits) ci_ast [64257] = false.
+Proof. exact ci_map_values_refuted. Qed.
+
+(* (3) its prefix map is keyed by byte-sliced, differently normalised strings:
+   "(?i:k.*|v0|...|v15)" does not match "\u212Ax" (Kelvin sign). *)
+Theorem C17_ci_map_prefix_refuted :
+  optimize_alternating_literals (tabf ci_nl) cik_pat = None /\
+  match_string (fold_of ci_orbits) (tabf ci_nl) (new_frm (tabf ci_nl) (tabf []) cik_pat cik_ast) [8490; 120] = false /\
+  re_match (fold_of ci_orbits) cik_ast [8490; 120] = true.
+Proof. exact ci_map_prefix_refuted. Qed.
+
+Example C17_nonvacuous_set :
+  fsm (RConcat [RLit false [102; 111; 111]; RAlt [RLit false [49]; RClass false [(97, 98)]]]) []
+  = ([[102; 111; 111; 49]; [102; 111; 111; 97]; [102; 111; 111; 98]], true).
+Proof. reflexivity. Qed.
+
+Example C17_nonvacuous_sm :
+  smi (RConcat [RStar RAny; RLit false [102; 111; 111]; RPlus RAnyNotNL])
+  = Some (SContains (Some STrue) [[102; 111; 111]] (Some (SAnyNonEmpty false))).
+Proof. reflexivity. Qed.
